@@ -81,6 +81,8 @@ fn vote(v: u64, power: u64, kind: &str, height: u64, round: u16, price: i128) ->
         "nil" => (BlockIdFlag::Nil, vec![], None),
         "ok" => (BlockIdFlag::Commit, normal.clone(), Some(sign(&vkey(v), &normal, height, round))),
         "empty" => (BlockIdFlag::Commit, vec![], Some(sign(&vkey(v), &[], height, round))),
+        // an empty extension carries no price, but its signature is what makes the validator's power count
+        "emptyforged" => (BlockIdFlag::Commit, vec![], Some(sign(&vkey(v + 100), &[], height, round))),
         "forged" => (BlockIdFlag::Commit, normal.clone(), Some(sign(&vkey(v + 100), &normal, height, round))),
         "other" => (BlockIdFlag::Commit, normal.clone(), Some(sign(&vkey(v % 3 + 1), &normal, height, round))),
         "nosig" => (BlockIdFlag::Commit, normal.clone(), None),
